@@ -542,6 +542,13 @@ def str_concat(I, parts):
     r = zs[0]
     for z in zs[1:]:
         r = core.S_CAT(r, z)
+    # A4: a concatenation of stripped strings is stripped (its first / last character is the first / last character
+    # of a stripped non-empty part)
+    kept = [p for p in parts if not (isinstance(p, str) and p == "")]
+    if len(kept) >= 2 and all((p.strip() == p) if isinstance(p, str) else True for p in kept):
+        sf0 = I.strip_fn
+        cs = [sf0(to_z3(p)) == to_z3(p) for p in kept if not isinstance(p, str)]
+        I.ctx.assume(z3.Implies(z3.And(cs) if cs else z3.BoolVal(True), sf0(r) == r))
     # A4: x + sep + y is stripped when x has no leading and y no trailing blank and sep holds a non-blank
     if len(zs) >= 3 and any(isinstance(p, str) and p.strip() != "" for p in parts[1:-1]):
         sf = I.strip_fn
